@@ -87,8 +87,10 @@ func VerifH_C07_saveProtocol() {
 	job.offsets.Set("s", 5)
 	job2 := verifJob(2, "g", 20)
 	job2.offsets.Set("t", 7)
-	job2.offsets.Set("z", 0) // a stream whose first event is not committed yet is a stream of the table too
-	jobs := map[pipeline.SourceID]*Job{1: job, 2: job2}
+	job2.offsets.Set("z", 0)        // a stream whose first event is not committed yet is a stream of the table too
+	job3 := verifJob(3, "link", 10) // the file of job 1 followed a second time through a symlink: same inode, another source id
+	job3.offsets.Set("s", 2)
+	jobs := map[pipeline.SourceID]*Job{1: job, 2: job2, 3: job3}
 	saves := 1 + vf.Choose("saves", vf.Param("SAVES", 2))
 	for i := 0; i < saves; i++ {
 		db.save(jobs, &sync.RWMutex{})
@@ -125,7 +127,7 @@ func VerifH_C07_saveProtocol() {
 				loaded, err := db.parse(string(payload))
 				vf.Assert(err == nil, "renamed-snapshot-loads")
 				if err == nil {
-					ok := len(loaded) == 2 && loaded[1] != nil && loaded[2] != nil && loaded[1].streams["s"] == 5 && loaded[2].streams["t"] == 7
+					ok := len(loaded) == 3 && loaded[1] != nil && loaded[2] != nil && loaded[3] != nil && loaded[1].streams["s"] == 5 && loaded[2].streams["t"] == 7 && loaded[3].streams["s"] == 2
 					if ok {
 						z, has := loaded[2].streams["z"]
 						ok = has && z == 0 && len(loaded[2].streams) == 2 && len(loaded[1].streams) == 1
